@@ -141,6 +141,210 @@ MUTANTS = [
                 )?;
                 Self::decrypt_and_verify(encrypted_data, &key, reference)""")]),
     ("c17-hash-check-inverted", ["C17"], [], [(CORE + "encrypted_media/manager.rs", "        if calculated_hash != reference.original_hash {", "        if calculated_hash == reference.original_hash {")]),
+    ("c01-snapshot-failure-ignored", ["C01"], [], [(CORE + "messages/commit.rs", """            // Without a snapshot we can't guarantee MIP-03 convergence if a better commit arrives.
+            return Err(Error::SnapshotCreationFailed(
+                "snapshot creation failed".to_string(),
+            ));
+""", "")]),
+    ("c02-content-from-wrapper", ["C02", "C03"], [], [(CORE + "messages/application.rs", "            content: rumor.content.clone(),", "            content: event.content.clone(),")]),
+    ("c02-processed-record-conditional", ["C02"], [], [(CORE + "messages/application.rs", "        self.save_processed_message_record(processed_message.clone())?;", """        if group.last_message_id.is_some() {
+            self.save_processed_message_record(processed_message.clone())?;
+        }""")]),
+    ("c02-config-skew-constant", ["C02"], [], [(CORE + "messages/validation.rs", "                .saturating_add(self.config.max_future_skew_secs)", "                .saturating_add(300)")]),
+    ("c05-remove-members-no-admin-check", ["C05"], [], [(CORE + "groups.rs", """        if !self.is_leaf_node_admin(group_id, own_leaf)? {
+            return Err(Error::Group(
+                "Only group admins can remove members".to_string(),
+            ));
+        }""", "        let _ = own_leaf;")]),
+    ("c06-unsafe-allowed", ["C06"], [], [(CORE + "lib.rs", "#![forbid(unsafe_code)]", "#![allow(unsafe_code)]")]),
+    ("c06-h-tag-no-length-check", ["C06"], [], [(CORE + "messages/validation.rs", """        if group_id_hex.len() != 64 {
+            return Err(Error::InvalidGroupIdFormat(format!(
+                "expected 64 hex characters (32 bytes), got {} characters",
+                group_id_hex.len()
+            )));
+        }
+""", "")]),
+    ("c06-identity-no-length-check", ["C06"], [], [(CORE + "key_packages.rs", """        if identity_bytes.len() != 32 {
+            return Err(Error::KeyPackage(format!(
+                "Invalid credential identity length: {} (expected 32)",
+                identity_bytes.len()
+            )));
+        }
+""", "")]),
+    ("c06-validation-failure-marks-retryable", ["C06"], [], [(CORE + "messages/process.rs", """                if let Err(_save_err) = self.record_failure(event.id, &e, None, None) {
+                    tracing::warn!(
+                        target: "mdk_core::messages::process_message",
+                        "Failed to persist failure record; error details redacted"
+                    );
+                }
+                return Err(e);
+            }
+        };
+
+        // Step 2: Load group and decrypt message""", """                if let Err(_save_err) = self.record_failure(event.id, &e, None, None) {
+                    tracing::warn!(
+                        target: "mdk_core::messages::process_message",
+                        "Failed to persist failure record; error details redacted"
+                    );
+                }
+                let _ = self.storage().mark_processed_message_retryable(&event.id);
+                return Err(e);
+            }
+        };
+
+        // Step 2: Load group and decrypt message""")]),
+    ("c02-echo-created-marks-failed", ["C02"], [], [(CORE + "messages/error_handling.rs", """                        processed_message.state = message_types::ProcessedMessageState::Processed;
+                        self.storage()
+                            .save_processed_message(processed_message.clone())
+                            .map_err(|_e| {
+                                Error::Message(
+                                    "Storage error while saving processed message".to_string(),
+                                )
+                            })?;
+
+                        tracing::debug!(target: "mdk_core::messages::process_message", "Updated state of own cached message");""", """                        tracing::debug!(target: "mdk_core::messages::process_message", "Updated state of own cached message");""")]),
+    ("c03-wrapper-carries-plaintext", ["C03"], [], [(CORE + "groups.rs", """        let event = EventBuilder::new(Kind::MlsGroupMessage, encrypted_content)
+            .tag(tag)""", """        let _ = encrypted_content;
+        let event = EventBuilder::new(Kind::MlsGroupMessage, hex::encode(&serialized_content))
+            .tag(tag)""")]),
+    ("c07-dedup-lookup-unchecked", ["C07"], [], [(CORE + "messages/process.rs", """            .find_processed_message_by_event_id(&event.id)
+            .map_err(|_e| {
+                Error::Message("Storage error while checking for processed message".to_string())
+            })?
+        {""", """            .find_processed_message_by_event_id(&event.id)
+            .ok()
+            .flatten()
+        {""")]),
+    ("c07-core-writes-epoch-invalidated", ["C07"], [], [(CORE + "messages/application.rs", "            state: message_types::MessageState::Processed,", "            state: message_types::MessageState::EpochInvalidated,")]),
+    ("c08-h-tag-is-mls-group-id", ["C08"], [], [(CORE + "groups.rs", "        let tag: Tag = Tag::custom(TagKind::h(), [hex::encode(group.nostr_group_id)]);", "        let tag: Tag = Tag::custom(TagKind::h(), [hex::encode(group.mls_group_id.as_slice())]);")]),
+    ("c09-rollback-consumes-all-snapshots", ["C09"], [], [(SQL + "lib.rs", """            // 4. Delete the consumed snapshot (may be no-op if CASCADE already deleted them)
+            conn.execute(
+                "DELETE FROM group_state_snapshots WHERE snapshot_name = ? AND group_id = ?",
+                rusqlite::params![name, group_id_bytes],
+            )""", """            // 4. Delete the consumed snapshot (may be no-op if CASCADE already deleted them)
+            conn.execute(
+                "DELETE FROM group_state_snapshots WHERE group_id = ?",
+                rusqlite::params![group_id_bytes],
+            )""")]),
+    ("c09-memory-restore-skips-relays", ["C09"], [], [(MEM + "lib.rs", """        if !snapshot.group_relays.is_empty() {
+            inner
+                .group_relays_cache
+                .put(group_id.clone(), snapshot.group_relays);
+        }
+""", "")]),
+    ("c09-memory-restore-drops-messages", ["C09"], [], [(MEM + "lib.rs", """        inner.group_relays_cache.pop(group_id);
+
+        // Remove all exporter secrets for this group""", """        inner.group_relays_cache.pop(group_id);
+        inner.messages_by_group_cache.pop(group_id);
+
+        // Remove all exporter secrets for this group""")]),
+    ("c10-mapper-drops-failure-reason", ["C10"], [], [(SQL + "db.rs", """    let mls_group_id_blob: Option<&[u8]> = row.get_ref("mls_group_id")?.as_blob_or_null()?;
+    let state_str: &str = row.get_ref("state")?.as_str()?;
+    let failure_reason: Option<String> = row.get("failure_reason")?;""", """    let mls_group_id_blob: Option<&[u8]> = row.get_ref("mls_group_id")?.as_blob_or_null()?;
+    let state_str: &str = row.get_ref("state")?.as_str()?;
+    let failure_reason: Option<String> = None;""")]),
+    ("c10-memory-processed-touches-messages", ["C10"], [], [(MEM + "messages.rs", """        inner
+            .processed_messages_cache
+            .put(processed_message.wrapper_event_id, processed_message);
+""", """        inner.messages_cache.pop(&processed_message.wrapper_event_id);
+        inner
+            .processed_messages_cache
+            .put(processed_message.wrapper_event_id, processed_message);
+""")]),
+    ("c11-self-update-required-as-one", ["C11"], [], [(SQL + "groups.rs", "            SelfUpdateState::Required => 0,", "            SelfUpdateState::Required => 1,")]),
+    ("c11-new-volatile-cache", ["C11"], [], [(CORE + "lib.rs", """    /// Optional callback for events
+    callback: Option<Arc<dyn MdkCallback>>,
+}""", """    /// Optional callback for events
+    callback: Option<Arc<dyn MdkCallback>>,
+    /// Wrapper ids seen by this instance
+    #[allow(dead_code)]
+    seen_events: std::sync::Mutex<std::collections::HashSet<nostr::EventId>>,
+}"""), (CORE + "lib.rs", """            epoch_snapshots,
+            callback: self.callback,
+        }""", """            epoch_snapshots,
+            callback: self.callback,
+            seen_events: Default::default(),
+        }""")]),
+    ("c13-foreign-keys-before-key", ["C13"], [], [(SQL + "lib.rs", """        let conn = Connection::open(file_path)?;
+
+        // Apply encryption if configured (must be done before any other operations)""", """        let conn = Connection::open(file_path)?;
+        conn.execute_batch("PRAGMA foreign_keys = ON;")?;
+
+        // Apply encryption if configured (must be done before any other operations)""")]),
+    ("c13-temp-store-not-pinned", ["C13"], [], [(SQL + "encryption.rs", """    conn.execute_batch("PRAGMA temp_store = MEMORY;")?;
+""", "")]),
+    ("c13-second-open", ["C13"], [], [(SQL + "lib.rs", """        if file_path.exists() && !encryption::is_database_encrypted(file_path)? {
+            return Err(Error::UnencryptedDatabaseWithEncryption);
+        }
+
+        Self::new_internal(file_path, Some(config))""", """        if file_path.exists() && !encryption::is_database_encrypted(file_path)? {
+            return Err(Error::UnencryptedDatabaseWithEncryption);
+        }
+        let _probe = Connection::open(file_path)?;
+
+        Self::new_internal(file_path, Some(config))""")]),
+    ("c13-encconfig-key-public", ["C13"], [], [(SQL + "encryption.rs", """    /// The 32-byte (256-bit) encryption key for SQLCipher.
+    key: Secret<[u8; 32]>,""", """    /// The 32-byte (256-bit) encryption key for SQLCipher.
+    pub key: Secret<[u8; 32]>,""")]),
+    ("c14-error-carries-group-id", ["C14"], [], [(CORE + "groups.rs", """                "Only group admins can remove members".to_string(),""", """                format!("Only group admins can remove members of {}", hex::encode(group_id.as_slice())),""")]),
+    ("c14-secret-display", ["C14"], [], [(TR + "secret.rs", """impl<T> fmt::Debug for Secret<T>
+where
+    T: zeroize::Zeroize,
+{""", """impl<T> fmt::Display for Secret<T>
+where
+    T: zeroize::Zeroize + fmt::Debug,
+{
+    fn fmt(&self, f: &mut fmt::Formatter<'_>) -> fmt::Result {
+        write!(f, "{:?}", self.0)
+    }
+}
+
+impl<T> fmt::Debug for Secret<T>
+where
+    T: zeroize::Zeroize,
+{""")]),
+    ("c15-encode-url-safe-engine", ["C15"], [], [(CORE + "util.rs", "        ContentEncoding::Base64 => BASE64.encode(bytes),", "        ContentEncoding::Base64 => nostr::base64::engine::general_purpose::URL_SAFE.encode(bytes),")]),
+    ("c15-as-raw-key-from-hash", ["C15"], [], [(CORE + "extension/types.rs", "            image_key: self.image_key.map_or_else(Vec::new, |key| key.to_vec()),", "            image_key: self.image_hash.map_or_else(Vec::new, |key| key.to_vec()),")]),
+    ("c16-welcome-dedup-unchecked", ["C16"], [], [(CORE + "welcomes.rs", """            .find_processed_welcome_by_event_id(wrapper_event_id)
+            .map_err(|e| Error::Welcome(e.to_string()))?
+        {""", """            .find_processed_welcome_by_event_id(wrapper_event_id)
+            .ok()
+            .flatten()
+        {""")]),
+    ("c16-missing-encoding-recorded-processed", ["C16"], [], [(CORE + "welcomes.rs", """                let error_string = "Missing required encoding tag".to_string();
+                let processed_welcome = welcome_types::ProcessedWelcome {
+                    wrapper_event_id: *wrapper_event_id,
+                    welcome_event_id: welcome_event.id,
+                    processed_at: Timestamp::now(),
+                    state: welcome_types::ProcessedWelcomeState::Failed,""", """                let error_string = "Missing required encoding tag".to_string();
+                let processed_welcome = welcome_types::ProcessedWelcome {
+                    wrapper_event_id: *wrapper_event_id,
+                    welcome_event_id: welcome_event.id,
+                    processed_at: Timestamp::now(),
+                    state: welcome_types::ProcessedWelcomeState::Processed,""")]),
+    ("c17-image-hash-mismatch-only-logged", ["C17"], [], [(CORE + "extension/group_image.rs", """                return Err(GroupImageError::HashVerificationFailed {
+                    expected: hex::encode(expected_hash),
+                    actual: hex::encode(calculated_hash),
+                });""", """                tracing::warn!(target: "mdk_core::extension::group_image", "group image blob hash mismatch");""")]),
+    ("c19-snapshot-under-two-guards", ["C19"], [], [(MEM + "lib.rs", """        // Get MDK group data
+        let group = inner.groups_cache.peek(group_id).cloned();""", """        // Get MDK group data
+        drop(inner);
+        let inner = self.inner.read();
+        let group = inner.groups_cache.peek(group_id).cloned();""")]),
+    ("c19-manager-relocks-own-mutex", ["C19"], [], [(CORE + "epoch_snapshots.rs", """        let mut inner = self.inner.lock().unwrap();
+        let queue = inner.snapshots.entry(group_id.clone()).or_default();
+        queue.push_back(snapshot);
+
+        // Prune if needed (deferred slightly, or do it now)""", """        let mut inner = self.inner.lock().unwrap();
+        self.ensure_hydrated(storage, group_id);
+        let queue = inner.snapshots.entry(group_id.clone()).or_default();
+        queue.push_back(snapshot);
+
+        // Prune if needed (deferred slightly, or do it now)""")]),
+    ("c20-snapshot-outside-manager", ["C20"], [], [(CORE + "messages/commit.rs", """        mls_group
+            .merge_staged_commit(&self.provider, staged_commit)""", """        let _ = self.storage().create_group_snapshot(&group_id, "before-merge");
+        mls_group
+            .merge_staged_commit(&self.provider, staged_commit)""")]),
     ("c20-no-prune-after-hydration", ["C20"], [], [(CORE + "epoch_snapshots.rs", """        // Enforce retention limit after hydration
         while queue.len() > self.retention_count {
             if let Some(old_snap) = queue.pop_front() {
